@@ -110,17 +110,21 @@ def atoiDigits : Str → Nat → Option Nat
   | [], acc => some acc
   | c :: cs, acc => if 48 ≤ c ∧ c ≤ 57 then atoiDigits cs (acc * 10 + (c - 48)) else none
 
+/-- Optional leading sign of `strconv.Atoi`. -/
+def splitSign (s : Str) : Bool × Str :=
+  match s with
+  | 43 :: r => (false, r)
+  | 45 :: r => (true, r)
+  | r => (false, r)
+
 /-- `strconv.Atoi` (64-bit int): optional sign, at least one digit, digits only, range check. -/
 def atoi (s : Str) : Option Int :=
-  let (neg, ds) := match s with
-    | 43 :: r => (false, r)
-    | 45 :: r => (true, r)
-    | r => (false, r)
-  if ds.isEmpty then none else
-  match atoiDigits ds 0 with
+  let sd := splitSign s
+  if sd.2.isEmpty then none else
+  match atoiDigits sd.2 0 with
   | none => none
   | some n =>
-    if neg then (if n ≤ 2 ^ 63 then some (-(n : Int)) else none)
+    if sd.1 then (if n ≤ 2 ^ 63 then some (-(n : Int)) else none)
     else (if n < 2 ^ 63 then some (n : Int) else none)
 
 /-! ### parse -/
